@@ -167,4 +167,261 @@ theorem slow_nonsel {cfg : Config} (hbin : cfg.binary = .none) (hpt : cfg.passth
           · rename_i hnil; rw [hnil]; simp; rfl
           · omega
 
+theorem beforeContextByLine_at_llv (cfg : Config) (σ : Script) (buf : Bytes) (st : Core) (u : Nat)
+    (h : st.lastLineVisited = u) : beforeContextByLine cfg σ buf st u = (st, .ok true) := by
+  unfold beforeContextByLine
+  split
+  · rfl
+  · dsimp only
+    rw [h]
+    simp
+
+/-- **Lemma B, tail**: the slow loop over selected lines that directly follow the last visited line is
+the loop of `match_by_line_fast_invert` that delivers a run of lines -/
+theorem slow_selrun_tail {cfg : Config} (hbin : cfg.binary = .none) (m : MatcherI) (σ : Script) (buf : Bytes)
+    (run : List Bytes) :
+    ∀ (pre : Bytes) (T : Core),
+      buf.take (pre.length + run.flatten.length) = pre ++ run.flatten →
+      (∀ l ∈ run, succL cfg m l = true) → T.lastLineVisited = pre.length →
+      (slowLoop cfg m σ buf (spansFrom pre.length run) T).2 = (matchedLoop cfg σ buf (spansFrom pre.length run) T).2 ∧
+        (slowLoop cfg m σ buf (spansFrom pre.length run) T).1.withPH 0 false
+          = (matchedLoop cfg σ buf (spansFrom pre.length run) T).1.withPH 0 false ∧
+        ((slowLoop cfg m σ buf (spansFrom pre.length run) T).2 = .ok true →
+          (slowLoop cfg m σ buf (spansFrom pre.length run) T).1.pos
+              = (if run = [] then T.pos else pre.length + run.flatten.length) ∧
+          (slowLoop cfg m σ buf (spansFrom pre.length run) T).1.hasMatched
+              = (if run = [] then T.hasMatched else true) ∧
+          (run ≠ [] → (slowLoop cfg m σ buf (spansFrom pre.length run) T).1.lastLineVisited
+                = pre.length + run.flatten.length ∧
+              (slowLoop cfg m σ buf (spansFrom pre.length run) T).1.afterContextLeft = cfg.afterContext)) := by
+  induction run with
+  | nil =>
+    intro pre T _ _ _
+    simp [spansFrom, slowLoop, matchedLoop]
+  | cons l run ih =>
+    intro pre T htake hsel hllv
+    have hl := slice_line htake
+    have hsucc : succL cfg m l = true := hsel l (by simp)
+    have htake' : buf.take ((pre ++ l).length + run.flatten.length) = (pre ++ l) ++ run.flatten := by
+      simpa [Nat.add_assoc] using htake
+    have hsel' : ∀ x ∈ run, succL cfg m x = true := fun x hx => hsel x (by simp [hx])
+    simp only [spansFrom, slowLoop, matchedLoop]
+    rw [hl]
+    have hs2 : ((m.shortestMatch (withoutTerminator l cfg.lineTerm)).isSome != cfg.invertMatch) = true := hsucc
+    rw [hs2]
+    simp only [if_true, List.flatten_cons, List.length_append]
+    have hT1 : ({ ({ T with pos := pre.length + l.length } : Core) with hasMatched := true } : Core)
+        = T.withPH (pre.length + l.length) true := rfl
+    rw [hT1, beforeContextByLine_at_llv cfg σ buf _ pre.length (by show T.lastLineVisited = _; exact hllv)]
+    dsimp only
+    have hfr : sinkMatched cfg σ buf (T.withPH (pre.length + l.length) true) ⟨pre.length, pre.length + l.length⟩
+        = ((sinkMatched cfg σ buf T ⟨pre.length, pre.length + l.length⟩).1.withPH (pre.length + l.length) true,
+          (sinkMatched cfg σ buf T ⟨pre.length, pre.length + l.length⟩).2) :=
+      sinkMatched_ph hbin σ buf ⟨pre.length, pre.length + l.length⟩ T (pre.length + l.length) true
+    rw [hfr]
+    have hllv2 := sinkMatched_llv_ok cfg σ buf T ⟨pre.length, pre.length + l.length⟩
+    generalize sinkMatched cfg σ buf T ⟨pre.length, pre.length + l.length⟩ = g at hllv2 ⊢
+    obtain ⟨U, r⟩ := g
+    cases r with
+    | err => exact ⟨rfl, rfl, fun h => by cases h⟩
+    | ok b =>
+      cases b with
+      | false => exact ⟨rfl, rfl, fun h => by cases h⟩
+      | true =>
+        dsimp only at hllv2 ⊢
+        obtain ⟨hUl, hUa⟩ := hllv2 rfl
+        simp only [Bool.not_true, Bool.and_false, Bool.false_and, Bool.false_eq_true, if_false]
+        have := ih (pre ++ l) (U.withPH (pre.length + l.length) true) htake' hsel'
+          (by show U.lastLineVisited = (pre ++ l).length; rw [hUl]; simp)
+        simp only [List.length_append] at this
+        have hfr2 : matchedLoop cfg σ buf (spansFrom (pre.length + l.length) run) (U.withPH (pre.length + l.length) true)
+            = ((matchedLoop cfg σ buf (spansFrom (pre.length + l.length) run) U).1.withPH (pre.length + l.length) true,
+              (matchedLoop cfg σ buf (spansFrom (pre.length + l.length) run) U).2) :=
+          matchedLoop_ph hbin σ buf _ U (pre.length + l.length) true
+        rw [hfr2] at this
+        obtain ⟨h1, h2, h3⟩ := this
+        refine ⟨h1, by rw [h2]; rfl, fun hok => ?_⟩
+        obtain ⟨p1, p2, p3⟩ := h3 hok
+        simp only [List.cons_ne_nil, if_false]
+        by_cases hnil : run = []
+        · subst hnil
+          simp only [spansFrom, slowLoop] at p1 p2 ⊢
+          simp only [spansFrom, slowLoop, List.flatten_nil, List.length_nil, Nat.add_zero]
+          exact ⟨rfl, rfl, fun _ => ⟨hUl, hUa⟩⟩
+        · rw [if_neg hnil] at p1 p2
+          obtain ⟨q1, q2⟩ := p3 hnil
+          exact ⟨by rw [p1]; omega, p2, fun _ => ⟨by rw [q1]; omega, q2⟩⟩
+
+/-- **Lemma B**: the slow loop over a non-empty run of selected lines = before-context, then the run -/
+theorem slow_selrun {cfg : Config} (hbin : cfg.binary = .none) (m : MatcherI) (σ : Script) (buf : Bytes)
+    (l : Bytes) (run : List Bytes) (pre : Bytes) (T : Core)
+    (htake : buf.take (pre.length + (l :: run).flatten.length) = pre ++ (l :: run).flatten)
+    (hsel : ∀ x ∈ l :: run, succL cfg m x = true) :
+    (slowLoop cfg m σ buf (spansFrom pre.length (l :: run)) T).2
+        = (match beforeContextByLine cfg σ buf T pre.length with
+            | (st, .ok true) => matchedLoop cfg σ buf (spansFrom pre.length (l :: run)) st
+            | (st, r) => (st, r)).2 ∧
+      (slowLoop cfg m σ buf (spansFrom pre.length (l :: run)) T).1.withPH 0 false
+        = (match beforeContextByLine cfg σ buf T pre.length with
+            | (st, .ok true) => matchedLoop cfg σ buf (spansFrom pre.length (l :: run)) st
+            | (st, r) => (st, r)).1.withPH 0 false ∧
+      ((slowLoop cfg m σ buf (spansFrom pre.length (l :: run)) T).2 = .ok true →
+        (slowLoop cfg m σ buf (spansFrom pre.length (l :: run)) T).1.pos = pre.length + (l :: run).flatten.length ∧
+        (slowLoop cfg m σ buf (spansFrom pre.length (l :: run)) T).1.hasMatched = true ∧
+        (slowLoop cfg m σ buf (spansFrom pre.length (l :: run)) T).1.lastLineVisited
+          = pre.length + (l :: run).flatten.length ∧
+        (slowLoop cfg m σ buf (spansFrom pre.length (l :: run)) T).1.afterContextLeft = cfg.afterContext) := by
+  have hl := slice_line htake
+  have hsucc : succL cfg m l = true := hsel l (by simp)
+  have htake' : buf.take ((pre ++ l).length + run.flatten.length) = (pre ++ l) ++ run.flatten := by
+    simpa [Nat.add_assoc] using htake
+  have hsel' : ∀ x ∈ run, succL cfg m x = true := fun x hx => hsel x (by simp [hx])
+  simp only [spansFrom, slowLoop, matchedLoop]
+  rw [hl]
+  have hs2 : ((m.shortestMatch (withoutTerminator l cfg.lineTerm)).isSome != cfg.invertMatch) = true := hsucc
+  rw [hs2]
+  simp only [if_true, List.flatten_cons, List.length_append]
+  have hT1 : ({ ({ T with pos := pre.length + l.length } : Core) with hasMatched := true } : Core)
+      = T.withPH (pre.length + l.length) true := rfl
+  rw [hT1]
+  have hfr0 : beforeContextByLine cfg σ buf (T.withPH (pre.length + l.length) true) pre.length
+      = ((beforeContextByLine cfg σ buf T pre.length).1.withPH (pre.length + l.length) true,
+        (beforeContextByLine cfg σ buf T pre.length).2) :=
+    beforeContextByLine_ph hbin σ buf pre.length T (pre.length + l.length) true
+  rw [hfr0]
+  generalize beforeContextByLine cfg σ buf T pre.length = g0
+  obtain ⟨V, r0⟩ := g0
+  cases r0 with
+  | err => exact ⟨rfl, rfl, fun h => by cases h⟩
+  | ok b0 =>
+    cases b0 with
+    | false => exact ⟨rfl, rfl, fun h => by cases h⟩
+    | true =>
+      dsimp only
+      have hfr : sinkMatched cfg σ buf (V.withPH (pre.length + l.length) true) ⟨pre.length, pre.length + l.length⟩
+          = ((sinkMatched cfg σ buf V ⟨pre.length, pre.length + l.length⟩).1.withPH (pre.length + l.length) true,
+            (sinkMatched cfg σ buf V ⟨pre.length, pre.length + l.length⟩).2) :=
+        sinkMatched_ph hbin σ buf ⟨pre.length, pre.length + l.length⟩ V (pre.length + l.length) true
+      rw [hfr]
+      have hllv2 := sinkMatched_llv_ok cfg σ buf V ⟨pre.length, pre.length + l.length⟩
+      generalize sinkMatched cfg σ buf V ⟨pre.length, pre.length + l.length⟩ = g at hllv2 ⊢
+      obtain ⟨U, r⟩ := g
+      cases r with
+      | err => exact ⟨rfl, rfl, fun h => by cases h⟩
+      | ok b =>
+        cases b with
+        | false => exact ⟨rfl, rfl, fun h => by cases h⟩
+        | true =>
+          dsimp only at hllv2 ⊢
+          obtain ⟨hUl, hUa⟩ := hllv2 rfl
+          simp only [Bool.not_true, Bool.and_false, Bool.false_and, Bool.false_eq_true, if_false]
+          have := slow_selrun_tail hbin m σ buf run (pre ++ l) (U.withPH (pre.length + l.length) true) htake' hsel'
+            (by show U.lastLineVisited = (pre ++ l).length; rw [hUl]; simp)
+          simp only [List.length_append] at this
+          have hfr2 : matchedLoop cfg σ buf (spansFrom (pre.length + l.length) run) (U.withPH (pre.length + l.length) true)
+              = ((matchedLoop cfg σ buf (spansFrom (pre.length + l.length) run) U).1.withPH (pre.length + l.length) true,
+                (matchedLoop cfg σ buf (spansFrom (pre.length + l.length) run) U).2) :=
+            matchedLoop_ph hbin σ buf _ U (pre.length + l.length) true
+          rw [hfr2] at this
+          obtain ⟨h1, h2, h3⟩ := this
+          refine ⟨h1, by rw [h2]; rfl, fun hok => ?_⟩
+          obtain ⟨p1, p2, p3⟩ := h3 hok
+          by_cases hnil : run = []
+          · subst hnil
+            simp only [spansFrom, slowLoop, List.flatten_nil, List.length_nil, Nat.add_zero]
+            exact ⟨rfl, rfl, hUl, hUa⟩
+          · rw [if_neg hnil] at p1 p2
+            obtain ⟨q1, q2⟩ := p3 hnil
+            exact ⟨by rw [p1]; omega, p2, by rw [q1]; omega, q2⟩
+
+/-! ### the contract on `find_by_line_fast`, in list form -/
+
+/-- the first line the pattern matches, as a span (lines starting at offset `o`) -/
+def firstPm (cfg : Config) (m : MatcherI) : Nat → List Bytes → Option Span
+  | _, [] => none
+  | o, l :: ls => if pmLineL cfg m l then some ⟨o, o + l.length⟩ else firstPm cfg m (o + l.length) ls
+
+/-- **Contract on `find_by_line_fast`** for the buffer `buf`: started at a line start it returns the
+first line from there on that the pattern matches (judged on the line alone), if any. -/
+def FindC (cfg : Config) (m : MatcherI) (buf : Bytes) : Prop :=
+  ∀ (prew : Bytes) (ls : List Bytes) (st : Core), GoodLines cfg.lineTerm.asByte ls → buf = prew ++ ls.flatten →
+    (prew = [] ∨ prew.getLast? = some cfg.lineTerm.asByte) → st.pos = prew.length →
+    findByLineFast cfg m buf st = firstPm cfg m prew.length ls
+
+theorem firstPm_none {cfg : Config} {m : MatcherI} : ∀ {ls : List Bytes} {o : Nat},
+    firstPm cfg m o ls = none → ∀ l ∈ ls, pmLineL cfg m l = false := by
+  intro ls
+  induction ls with
+  | nil => intro o _ l hl; simp at hl
+  | cons x xs ih =>
+    intro o h l hl
+    unfold firstPm at h
+    split at h
+    · cases h
+    · rename_i hx
+      simp only [List.mem_cons] at hl
+      cases hl with
+      | inl e => rw [e]; simpa using hx
+      | inr e => exact ih h l e
+
+theorem firstPm_some {cfg : Config} {m : MatcherI} : ∀ {ls : List Bytes} {o : Nat} {sp : Span},
+    firstPm cfg m o ls = some sp →
+    ∃ nm lj rest, ls = nm ++ lj :: rest ∧ (∀ l ∈ nm, pmLineL cfg m l = false) ∧ pmLineL cfg m lj = true ∧
+      sp = ⟨o + nm.flatten.length, o + nm.flatten.length + lj.length⟩ := by
+  intro ls
+  induction ls with
+  | nil => intro o sp h; cases h
+  | cons x xs ih =>
+    intro o sp h
+    unfold firstPm at h
+    split at h
+    · rename_i hx
+      simp only [Option.some.injEq] at h
+      exact ⟨[], x, xs, rfl, fun l hl => by simp at hl, hx, by rw [← h]; simp⟩
+    · rename_i hx
+      obtain ⟨nm, lj, rest, e1, e2, e3, e4⟩ := ih h
+      refine ⟨x :: nm, lj, rest, by rw [e1]; rfl, ?_, e3, ?_⟩
+      · intro l hl
+        simp only [List.mem_cons] at hl
+        cases hl with
+        | inl e => rw [e]; simpa using hx
+        | inr e => exact e2 l e
+      · rw [e4]; simp [Nat.add_assoc]
+
+/-! ### `match_by_line` on the fast path, as a loop and a tail -/
+
+/-- what `match_by_line` / `match_by_line_fast` do with the result of the fast loop -/
+def fastTail (cfg : Config) (m : MatcherI) (σ : Script) (buf : Bytes)
+    (x : Core × Res (Option FastMatchResult)) : Core × Res Bool :=
+  match x with
+  | (st, .err) => (st, .err)
+  | (st, .ok (some .switchToSlow)) => matchByLineSlow cfg m σ buf st
+  | (st, .ok (some .continue_)) => (st, .ok true)
+  | (st, .ok (some .stop)) => (st, .ok false)
+  | (st, .ok none) =>
+    match afterContextByLine cfg σ buf st buf.length with
+    | (st, .err) => (st, .err)
+    | (st, .ok false) => (st, .ok false)
+    | (st, .ok true) => ({ st with pos := buf.length }, .ok true)
+
+theorem matchByLine_fast {cfg : Config} {m : MatcherI} (σ : Script) (buf : Bytes) (st : Core)
+    (h : isLineByLineFast cfg m st = true) :
+    matchByLine cfg m σ buf st = fastTail cfg m σ buf (fastLoop cfg m σ buf (buf.length + 1) st) := by
+  unfold matchByLine matchByLineFast
+  rw [if_pos h]
+  generalize fastLoop cfg m σ buf (buf.length + 1) st = x
+  obtain ⟨s, r⟩ := x
+  cases r with
+  | err => rfl
+  | ok o =>
+    cases o with
+    | some fr => cases fr <;> rfl
+    | none =>
+      simp only [fastTail]
+      generalize afterContextByLine cfg σ buf s buf.length = y
+      obtain ⟨s2, r2⟩ := y
+      cases r2 with
+      | err => rfl
+      | ok b => cases b <;> rfl
+
 end RgVerif.Searcher
